@@ -297,6 +297,46 @@ pub fn dispatch(f: &[&str]) -> String {
                 Err(e) => format!("ERR {} {}", e.0, e.1.replace(['\n', '\t'], " ")),
             }
         }
+        // ---- text <-> CLVM (C09, C11)
+        "assemble" => {
+            let text = String::from_utf8_lossy(&hex::decode(f[1]).unwrap()).to_string();
+            let mut a = Allocator::new();
+            match chialisp::classic::clvm_tools::binutils::assemble(&mut a, &text) {
+                Ok(n) => format!("OK {}", val::print(&a, n)),
+                Err(e) => format!("ERR {:?}", e).replace(['\n', '\t'], " "),
+            }
+        }
+        "disassemble" => {
+            // disassemble <version|-> V  -> hex of text
+            let mut a = Allocator::new();
+            let v = val::parse(&mut a, f[2]).unwrap();
+            let ver = if f[1] == "-" { None } else { Some(f[1].parse::<usize>().unwrap()) };
+            format!("OK {}", hex::encode(chialisp::classic::clvm_tools::binutils::disassemble(&a, v, ver)))
+        }
+        "parse_modern" => {
+            // parse text with the modern reader, convert the first form to CLVM (mode given)
+            let _g = chialisp::compiler::clvm::NewStyleIntConversion::new(f[1] == "1");
+            let text = hex::decode(f[2]).unwrap();
+            match chialisp::compiler::sexp::parse_sexp(chialisp::compiler::srcloc::Srcloc::start("*verif*"), text.iter().copied()) {
+                Ok(forms) => {
+                    if forms.len() != 1 {
+                        format!("ERR {} forms", forms.len())
+                    } else {
+                        let mut a = Allocator::new();
+                        match chialisp::compiler::clvm::convert_to_clvm_rs(&mut a, forms[0].clone()) {
+                            Ok(n) => format!("OK {}", val::print(&a, n)),
+                            Err(e) => format!("ERR {}", runfailure_text(&e)),
+                        }
+                    }
+                }
+                Err(e) => format!("ERR {} {}", e.0, e.1.replace(['\n', '\t'], " ")),
+            }
+        }
+        "print_modern" => {
+            // rich value -> text of the modern printer (hex)
+            let r = crate::rich::parse(f[1]).unwrap();
+            format!("OK {}", hex::encode(r.to_string()))
+        }
         other => format!("BADOP {}", other),
     }
 }
